@@ -11,6 +11,7 @@ import (
 	"sort"
 	"strconv"
 	"strings"
+	"syscall"
 	"testing"
 	"time"
 )
@@ -44,6 +45,18 @@ type fsEnv struct {
 	work    string // scratch directory
 	strace  bool
 	counter int
+	tmpdir  string // TMPDIR handed to the children: on another file system than the data directory when one exists
+}
+
+// childCmd builds a child command whose TMPDIR lies on a different file system than the node
+// directory (if the sandbox has one): a store that stages its temporary file there cannot
+// publish it by rename.
+func (e *fsEnv) childCmd(name string, args ...string) *exec.Cmd {
+	cmd := exec.Command(name, args...)
+	if e.tmpdir != "" {
+		cmd.Env = append(os.Environ(), "TMPDIR="+e.tmpdir)
+	}
+	return cmd
 }
 
 func newFsEnv() (*fsEnv, error) {
@@ -66,6 +79,14 @@ func newFsEnv() (*fsEnv, error) {
 	// strace usable?
 	cmd := exec.Command("strace", "-f", "-o", "/dev/null", "-e", "trace=write", "true")
 	e.strace = cmd.Run() == nil
+	// a TMPDIR on another file system
+	var a, b syscall.Stat_t
+	if syscall.Stat(e.work, &a) == nil && syscall.Stat("/dev/shm", &b) == nil && a.Dev != b.Dev {
+		td := fmt.Sprintf("/dev/shm/verif-tmp-%d", os.Getpid())
+		if os.MkdirAll(td, 0o755) == nil {
+			e.tmpdir = td
+		}
+	}
 	return e, nil
 }
 
@@ -104,7 +125,7 @@ func (e *fsEnv) recordRun(size int) ([]sysEvent, error) {
 	defer os.RemoveAll(dir)
 	tr := filepath.Join(e.work, fmt.Sprintf("trace-%d.txt", e.counter))
 	defer os.Remove(tr)
-	cmd := exec.Command("strace", "-f", "-o", tr, e.child, "store", dir, "node", pf)
+	cmd := e.childCmd("strace", "-f", "-o", tr, e.child, "store", dir, "node", pf)
 	out, err := cmd.CombinedOutput()
 	if err != nil || !strings.Contains(string(out), "STORE ok") {
 		return nil, fmt.Errorf("record run: %v %s", err, out)
@@ -226,23 +247,28 @@ func (e *fsEnv) runItem(it fsItem, writeOrd int) (*fsOutcome, error) {
 	var cmd *exec.Cmd
 	switch it.Mode {
 	case "eio-byte":
-		cmd = exec.Command(e.child, "store", dir, "node", pf, strconv.Itoa(it.At))
+		cmd = e.childCmd(e.child, "store", dir, "node", pf, strconv.Itoa(it.At))
 	case "crash-byte":
 		when := writeOrd + 1
 		if it.At == 0 {
 			when = writeOrd
 		}
-		cmd = exec.Command("strace", "-f", "-o", "/dev/null", "-e", "trace=write",
+		cmd = e.childCmd("strace", "-f", "-o", "/dev/null", "-e", "trace=write",
 			"-e", fmt.Sprintf("inject=write:when=%d:signal=KILL", when),
 			e.child, "store", dir, "node", pf, strconv.Itoa(it.At))
 	case "crash-sys":
-		cmd = exec.Command("strace", "-f", "-o", "/dev/null", "-e", "trace="+it.Sys,
+		cmd = e.childCmd("strace", "-f", "-o", "/dev/null", "-e", "trace="+it.Sys,
 			"-e", fmt.Sprintf("inject=%s:when=%d:signal=KILL", it.Sys, it.At),
 			e.child, "store", dir, "node", pf)
 	case "err-sys":
-		cmd = exec.Command("strace", "-f", "-o", "/dev/null", "-e", "trace="+it.Sys,
+		cmd = e.childCmd("strace", "-f", "-o", "/dev/null", "-e", "trace="+it.Sys,
 			"-e", fmt.Sprintf("inject=%s:when=%d:error=EIO", it.Sys, it.At),
 			e.child, "store", dir, "node", pf)
+	case "err-sys-retry":
+		// the same process retries the Store after the injected failure and reads the node back
+		cmd = e.childCmd("strace", "-f", "-o", "/dev/null", "-e", "trace="+it.Sys,
+			"-e", fmt.Sprintf("inject=%s:when=%d:error=EIO", it.Sys, it.At),
+			e.child, "storeretryload", dir, "node", pf)
 	case "pause-sys":
 		return e.runPauseItem(it, dir, pf)
 	default:
@@ -270,7 +296,7 @@ func (e *fsEnv) runItem(it fsItem, writeOrd int) (*fsOutcome, error) {
 	}
 	o.listing = dirListing(dir, "node")
 	// restart: fresh process, no limits, no injection
-	vcmd := exec.Command(e.child, "verify", dir, "node", pf)
+	vcmd := e.childCmd(e.child, "verify", dir, "node", pf)
 	vout, verr := vcmd.CombinedOutput()
 	if verr != nil {
 		return nil, fmt.Errorf("verify child: %v %s", verr, vout)
@@ -291,7 +317,22 @@ func (e *fsEnv) runItem(it fsItem, writeOrd int) (*fsOutcome, error) {
 	if it.Sys != "" {
 		where += "/" + it.Sys
 	}
+	var storeB, loadB string
+	for _, l := range strings.Split(so, "\n") {
+		if strings.HasPrefix(l, "STOREB ") {
+			storeB = strings.TrimPrefix(l, "STOREB ")
+		}
+		if strings.HasPrefix(l, "LOADB ") {
+			loadB = strings.TrimPrefix(l, "LOADB ")
+		}
+	}
 	switch {
+	case strings.HasPrefix(loadB, "WRONG"):
+		o.sig = "C17/partial-node-exposed/" + where
+		o.detail = fmt.Sprintf("%s: the retrying process read back %s bytes without error", it, strings.TrimPrefix(loadB, "WRONG "))
+	case strings.HasPrefix(storeB, "ok") && !strings.HasPrefix(loadB, "complete"):
+		o.sig = "C17/successful-store-not-loadable/" + where
+		o.detail = fmt.Sprintf("%s: after the injected failure the same process stored the node again (returned nil), but its Load says %q", it, loadB)
 	case strings.HasPrefix(load1, "WRONG"):
 		o.sig = "C17/partial-node-exposed/" + where
 		o.detail = fmt.Sprintf("%s: after restart Load returned %s bytes without error (dir: %s)", it, strings.TrimPrefix(load1, "WRONG "), o.listing)
@@ -400,7 +441,7 @@ func fsOffsets(size int, g *Gen, thorough bool) []int {
 		return out
 	}
 	set := map[int]bool{}
-	for _, x := range []int{0, 1, 2, 511, 512, 513, 4095, 4096, 4097, 8192, 65535, 65536, 65537, size / 2, size - 2, size - 1} {
+	for _, x := range []int{0, 1, 2, 511, 512, 513, 4095, 4096, 4097, 8192, 65535, 65536, 65537, 1<<20 - 1, 1 << 20, 1<<20 + 1, 2 << 20, 2<<20 + 1, size / 2, size - 2, size - 1} {
 		if x >= 0 && x < size {
 			set[x] = true
 		}
@@ -425,9 +466,9 @@ func fsOffsets(size int, g *Gen, thorough bool) []int {
 func (e *fsEnv) fsEnumerate(tier string, seed uint64) ([]fsItem, map[int]int, map[int][]sysEvent, error) {
 	sizes := []int{1, 60}
 	if tier == "thorough" {
-		sizes = []int{1, 2, 60, 4097, 100 * 1024}
+		sizes = []int{1, 2, 60, 4097, 100 * 1024, 3*1024*1024 + 17}
 	} else {
-		sizes = append(sizes, 4097)
+		sizes = append(sizes, 4097, 1536*1024+1)
 	}
 	g := NewGen(seed)
 	var items []fsItem
@@ -461,6 +502,9 @@ func (e *fsEnv) fsEnumerate(tier string, seed uint64) ([]fsItem, map[int]int, ma
 		for i, ev := range evs {
 			items = append(items, fsItem{Size: sz, Mode: "crash-sys", Sys: ev.name, At: ev.ord, Seq: i})
 			items = append(items, fsItem{Size: sz, Mode: "err-sys", Sys: ev.name, At: ev.ord, Seq: i})
+			if sz == 60 {
+				items = append(items, fsItem{Size: sz, Mode: "err-sys-retry", Sys: ev.name, At: ev.ord, Seq: i})
+			}
 			if sz == 60 || (tier == "thorough" && sz > 4000) {
 				items = append(items, fsItem{Size: sz, Mode: "pause-sys", Sys: ev.name, At: ev.ord, Seq: i})
 			}
@@ -581,6 +625,14 @@ func RunFileStoreShard(t *testing.T, env *ShardEnv) *ShardReport {
 		return rep
 	}
 	defer os.RemoveAll(e.work)
+	defer func() {
+		if e.tmpdir != "" {
+			os.RemoveAll(e.tmpdir)
+		}
+	}()
+	if e.tmpdir != "" {
+		rep.Probes["children-run-with-TMPDIR-on-another-filesystem"]++
+	}
 	items, writeOrd, recs, err := e.fsEnumerate(env.Tier, env.Seed)
 	if err != nil {
 		rep.Note = "harness trouble: " + err.Error()
